@@ -372,6 +372,27 @@ def run(ctx):
         ctx.check('C06.R2', r is None, build.name, 'FinishCommand-failed:slot-held-at-exit',
                   build.where(e), 'when FinishCommand fails, Build releases the edge\'s slot before '
                   'returning', witness=None if r is None else {'blocks': r[0]})
+    # a reaped (completed) command has left the runner: on every path of Build from the wait to
+    # a return it is handed to FinishCommand or its slot is released, unless a test established
+    # that the result is not a completed command
+    for e in build.calls('CommandRunner::WaitForCommandOrJobserverToken'):
+        def not_completed(b, i, s):
+            ef = build.edge_fact(b, i)
+            if not ef:
+                return jobserver_absent_edge(build)(b, i, s)
+            k, pol = ef[0], ef[1]
+            # interrupted()/finished()/jobserver_token_available() true, or command_completed() false
+            if 'holds_alternative<BuildResult::CommandCompleted>' in k and pol is False:
+                return False
+            if 'holds_alternative<BuildResult::' in k and 'CommandCompleted' not in k.split('>')[0] and pol is True:
+                return False
+            return jobserver_absent_edge(build)(b, i, s)
+        r = build.find_path(e, lambda x: x['k'] in ('ret', 'exit'),
+                            is_blocker=lambda x: is_release(x) or (x['k'] == 'call' and x.get('name') == 'Builder::FinishCommand')
+                            or x['k'] == 'noreturn', edge_ok=not_completed)
+        ctx.check('C06.R2', r is None, build.name, 'completed-command:dropped-without-release', build.where(e),
+                  'a command reaped by the runner reaches FinishCommand or has its slot released before Build returns',
+                  witness=None if r is None else {'blocks': r[0], 'reaches': r[1].get('src')})
     # runner side: Abort -> ClearJobTokens releases every active edge; Cleanup calls Abort;
     # the destructor calls Cleanup
     cjt = prog.fn('RealCommandRunner::ClearJobTokens')
